@@ -22,7 +22,7 @@ the rows satisfying the filters; every simple metric is its declared aggregation
 over exactly the rows of the group (and of its own filters) — for all table contents. -/
 theorem C01_grouped {m : SModel} {q : Query} {p : Plan} {c : Cte} (h : Covered m q p c)
     (db : DB) (hpk : Spec.PkOK m (c.source.rows db)) :
-    p.body db = Spec.grouped m q (c.source.rows db) := by
+    p.body db = (Spec.grouped m q (c.source.rows db)).filter (havingHolds p.having) := by
   rw [body_fuse p c db h.fusable, h.same, Spec.grouped_eq_flat m q _ hpk]
 
 /-- exactly one column per requested dimension and metric, dimensions first, in request order,
@@ -94,13 +94,15 @@ theorem C01_limit_offset {m : SModel} {q : Query} {p : Plan} (h : genSingle m q 
   · exact absurd h (by simp)
   · split at h
     · exact absurd h (by simp)
-    · simp only [Except.ok.injEq] at h
-      subst h
-      refine ⟨rfl, ?_, rfl⟩
-      funext l
-      cases ho : q.offset with
-      | none => rfl
-      | some n => cases n <;> rfl
+    · split at h
+      · exact absurd h (by simp)
+      · simp only [Except.ok.injEq] at h
+        subst h
+        refine ⟨rfl, ?_, rfl⟩
+        funext l
+        cases ho : q.offset with
+        | none => rfl
+        | some n => cases n <;> rfl
 
 /-- limit = 0 returns no rows (regression guard for the repaired defect F1) -/
 example : (match genSingle exModel { exQuery with limit := some 0 } with
